@@ -1141,16 +1141,25 @@ def run(ctx):
 
 def replay_line(ctx, rep):
     exe, err = C.build_harness("h_hpack", libs=HARNESS_LIBS, extra=HARNESS_EXTRA)
-    o, rc, e = C.run_lines([exe], [rep["input"]])
-    m, _, _ = C.run_model("hpack", [rep["input"]])
-    print("input:", rep["input"][:2000])
+    line = rep["input"]
+    o, rc, e = C.run_lines([exe], [line])
+    m, _, _ = C.run_model("hpack", [line])
+    print("input:", line[:2000])
     print("impl :", (o[0] if o else "<crash>")[:2000], rc)
     print("model:", (m[0] if m else "")[:2000])
-    v = oracle(rep["input"], o[0]) if o else "crash"
-    if rep["input"].startswith("lsenc") and o and not o[0].endswith("ng=ok"):
-        v = "nghttp2 does not decode lshpack's output"
+    if not o:
+        print("stderr:", e[-2000:])
+        v = "crash / sanitizer report"
+    else:
+        v = oracle(line, o[0])
+        if line.startswith("lsenc") and not o[0].endswith("ng=ok"):
+            v = "nghttp2 does not decode lshpack's output"
+        if line.startswith("req") and "IDBAD" in o[0]:
+            v = "a request header is filed under an id that is not the id of its name"
     print("oracle:", v)
-    if v or (o != m and not rep["input"].startswith(("lsenc", "ngenc"))):
+    producer = line.startswith(("lsenc", "ngenc", "ngdec"))
+    differs = bool(o) and not producer and [strip_view(x) for x in o] != m
+    if v or differs:
         print("VIOLATION property=%s replay=%s" % (ctx.pid, "(replayed)"))
         return 1
     return 0
